@@ -488,6 +488,10 @@ static void DecodeRES(Word Index) {
     }
 
     if (Index) {
+        if (SetMaxCodeLen(2 * (LongWord)Size)) {
+            WrError(ErrNum_CodeOverflow);
+            return;
+        }
         for (i = 0; i < Size; i++) {
             WAsmCode[i] = 0;
         }
